@@ -66,6 +66,7 @@ var c02UnitNames = []string{
 	"group-or-map-raw", "group-or-raw-eq", "group-or-struct-map",
 	"lt", "lte", "gt", "gte", "neq", "in-expr", "or-expr-single", "and-expr-single",
 	"group-rawor-and", "group-and-rawor",
+	"raw-or-quote-adjacent", "raw-or-placeholder-adjacent",
 }
 
 func c02MakeUnit(kind int, db *gorm.DB, row *sqlRow, tag string) c02Unit {
@@ -85,6 +86,16 @@ func c02MakeUnit(kind int, db *gorm.DB, row *sqlRow, tag string) c02Unit {
 	case "raw-or-paren":
 		verifrt.Tag("kw:paren-adjacent")
 		q := "a = ? " + symKW(tag+"_k", "OR") + "(b = ?)"
+		return c02Unit{query: q, args: []interface{}{x, y}, exp: tvOr(ax, by)}
+	case "raw-or-quote-adjacent":
+		// the keyword directly followed by a quoted identifier
+		verifrt.Tag("kw:quote-adjacent")
+		q := "a = ? " + symKW(tag+"_k", "OR") + "`b` = ?"
+		return c02Unit{query: q, args: []interface{}{x, y}, exp: tvOr(ax, by)}
+	case "raw-or-placeholder-adjacent":
+		// the keyword directly after a placeholder
+		verifrt.Tag("kw:placeholder-adjacent")
+		q := "a = ?" + symKW(tag+"_k", "OR") + " b = ?"
 		return c02Unit{query: q, args: []interface{}{x, y}, exp: tvOr(ax, by)}
 	case "raw-and-or":
 		q := "a = ? " + symKW(tag+"_k1", "AND") + " b = ? " + symKW(tag+"_k2", "OR") + " c = ?"
